@@ -924,7 +924,11 @@ func (env *specEnv) call(x *SCall) SV {
 			env.fail("typeis needs a type name string")
 		}
 		name, _ := strconv.Unquote(lit.Val)
-		if e.W.parseTypeName(name) == nil {
+		base := name
+		if i := strings.Index(base, "["); i > 0 && !strings.HasPrefix(base, "[") {
+			base = base[:i] // generic instance "pkg.T[K, V]": resolve the origin; the id is keyed by the full string
+		}
+		if e.W.parseTypeName(base) == nil {
 			// a type that is not part of the loaded program: no value can have it as dynamic type
 			return SV{T: tFalse, Sort: "Bool"}
 		}
